@@ -46,7 +46,7 @@ ID = "C18"
 LEVEL = "fault_enumeration"
 SOFT_TIMEOUT = 20
 TIERS = {
-  "quick": {"runs": 4800, "hard_timeout": 60, "confirm_timeout": 120, "shrink_budget": 25, "shrink_total": 240, "det_sample": 40},
+  "quick": {"runs": 1200, "hard_timeout": 60, "confirm_timeout": 120, "shrink_budget": 25, "shrink_total": 240, "det_sample": 40},
   "thorough": {"runs": 600000, "hard_timeout": 90, "confirm_timeout": 120, "shrink_budget": 90, "shrink_total": 900, "det_sample": 200},
 }
 FORMATS = ["srt", "vtt", "scc", "stl", "ttml"]
